@@ -1299,6 +1299,15 @@ func (g *Gen) opQStep() bool {
 		g.emit(fmt.Sprintf("qget q%d", q))
 	default:
 		g.emit(fmt.Sprintf("qnext q%d", q))
+		// while the query has a current row: read one arbitrary registered component through the
+		// query, whether or not the filter names it or the current archetype has it
+		if g.queryActive(q) && g.chance(0.3) {
+			if qo := g.h.queries[q]; qo != nil && qo.uq != nil {
+				names := g.regNames()
+				g.emit(fmt.Sprintf("qgetc q%d c%d", q, names[g.pick(len(names))]))
+				g.h.lastOK, g.h.lastRes = true, "1 "
+			}
+		}
 		// an exhausted (or failed) query is dropped; with a small probability it gets exactly
 		// one further misuse call (Next/Get/Close after exhaustion)
 		if !g.queryActive(q) {
@@ -1395,6 +1404,34 @@ func (g *Gen) opDumpLoad() bool {
 		g.dumpEnts = map[int][]int{}
 	}
 	g.dumpEnts[d] = append([]int(nil), g.ents...)
+	if g.chance(0.25) {
+		// load into a NEW, empty world (same component types), usually one with a smaller initial
+		// capacity than the dump has entries
+		g.drainQueries()
+		caps := []int{1, 1, 2, 4, 64}
+		g.emit(fmt.Sprintf("rebuild %d %d", caps[g.pick(len(caps))], []int{1, 2, 128}[g.pick(3)]))
+		g.filterLabels, g.typedFilters, g.obsLabels, g.openQueries = nil, nil, nil, nil
+		saved := g.ents
+		g.ents = nil
+		g.emit(fmt.Sprintf("load d%d", d))
+		if g.h.lastOK {
+			g.ents = saved
+			for i := 0; i < 6 && len(saved) > 0; i++ {
+				g.emit(fmt.Sprintf("alive e%d", saved[g.pick(len(saved))]))
+			}
+		}
+		for i := 0; i < 3; i++ {
+			l := g.nextEnt
+			g.nextEnt++
+			g.ents = append(g.ents, l)
+			g.emit(fmt.Sprintf("new0 e%d", l))
+		}
+		for i := 0; i < 2 && len(g.ents) > 0; i++ {
+			g.emit(fmt.Sprintf("del e%d", g.ents[g.pick(len(g.ents))]))
+		}
+		g.emit("stats")
+		return true
+	}
 	if g.chance(0.7) {
 		g.drainQueries()
 		g.emit("reset")
@@ -1453,8 +1490,49 @@ func (g *Gen) opLockedRegister() bool {
 	if g.h.queries[q] == nil {
 		return true
 	}
+	// a static type that is not registered yet: rejected while locked (twice: the roll-back must be
+	// complete), registered with the next sequential ID afterwards, and usable
+	var unreg []int
+	for n := 0; n < numStatic; n++ {
+		if _, ok := g.h.comps[n]; !ok {
+			unreg = append(unreg, n)
+		}
+	}
+	if len(unreg) > 0 && g.chance(0.5) {
+		n := unreg[g.pick(len(unreg))]
+		info := staticComps[n]
+		regLine := fmt.Sprintf("reg c%d %s %d", n, map[bool]string{true: "rel", false: "norel"}[info.kind == "rel"], info.size)
+		g.emit(regLine)
+		if g.chance(0.5) {
+			g.emit(regLine)
+		}
+		g.emit(fmt.Sprintf("qclose q%d", q))
+		if g.chance(0.3) && len(unreg) > 1 {
+			// another type first: it must get the ID the rejected registration did not consume
+			m := unreg[g.pick(len(unreg))]
+			if m != n {
+				mi := staticComps[m]
+				g.emit(fmt.Sprintf("reg c%d %s %d", m, map[bool]string{true: "rel", false: "norel"}[mi.kind == "rel"], mi.size))
+			}
+		}
+		g.emit(regLine)
+		if _, ok := g.h.comps[n]; ok {
+			g.lastRegs = append(g.lastRegs, n)
+			l := g.nextEnt
+			g.nextEnt++
+			g.ents = append(g.ents, l)
+			g.emit(fmt.Sprintf("new e%d u %s", l, g.compTokens([]int{n}, true, 0.02, 0.0)))
+		}
+		return true
+	}
 	g.emit("fill 1")
+	if g.chance(0.4) {
+		g.emit("fill 1") // the same filler type again (a rejected registration does not advance the counter)
+	}
 	g.emit(fmt.Sprintf("qclose q%d", q))
+	if g.chance(0.5) {
+		g.emit("fill 1")
+	}
 	// use the component registered last (and another one) in a new entity
 	if len(g.lastRegs) > 0 {
 		n := g.lastRegs[len(g.lastRegs)-1]
